@@ -289,8 +289,14 @@ def main():
         rep = extract.build(gen)
         # views whose extracted text no longer compiles together with its contracts (renamed local used by a hint, new helper ...)
         # are excluded like views outside the supported subset: properties depending on them become undecided, others are unaffected
+        cache = os.path.join(ROOT, 'gen', 'compiled.sha')
         for attempt in range(3):
+            sha = hashlib.sha256(open(gen, 'rb').read()).hexdigest()
+            if os.path.exists(cache) and sha in open(cache).read().split():
+                break                                   # this exact text was already type-checked by an earlier check of this session
             rc, out, err, wall = sh('verus %s --no-verify --triggers-mode silent --num-threads 4' % gen, timeout=600)
+            if rc == 0:
+                open(cache, 'a').write(sha + '\n')
             bad = {}
             if rc != 0:
                 gl = open(gen).read().split('\n')
@@ -336,25 +342,23 @@ def main():
     pmods = ['props::' + p for p in sorted(closure)] + (['lem', 'alg', 'alg2'] if closure else [])
     if pid == 'C18' and rep.get('unbounded_buffers'):
         print('MACHINERY: buffer fields without a declared C18 bound: %s (needs contract work, not a verdict)' % rep['unbounded_buffers']); sys.exit(2)
-    # ---- canaries: the trusted base must not prove false
-    can = run_verus(gen, ['canary'], rlimit=10, timeout=300)
     n_canaries = len(re.findall(r'proof fn canary_', '\n'.join(gen_lines)))
-    if can['json'] is None or can['json']['verification-results'].get('encountered-vir-error') or re.search(r'^error(\[E\d+\])?: (?!postcondition)', can['stderr'], re.M):
-        cerr = [l for l in can['stderr'].split('\n') if l.startswith('error')][:3]
-        if cerr and not all('postcondition' in l or 'aborting' in l for l in cerr):
-            print('MACHINERY: verus rejected the generated text - the code uses a construct or a name the contracts do not anchor to (needs contract work, not a verdict):\n' + '\n'.join(can['stderr'].split('\n')[:25])); sys.exit(2)
-    if can['json'] is None or can['json']['verification-results']['errors'] != n_canaries or n_canaries == 0:
-        print('MACHINERY: canary check inconclusive (%s of %d canaries failed as they must) - trusted base suspect' % (can['json'] and can['json']['verification-results']['errors'], n_canaries))
-        print(can['stderr'][-1500:]); sys.exit(2)
     # ---- the deductive run
     rl = 40 if tier == 'quick' else 80
-    res = run_verus(gen, mods + pmods, rlimit=rl, timeout=600)
+    # the canaries (module `canary`: `ensures false` with every broadcast group and axiom in scope) are verified in the same run and MUST fail
+    res = run_verus(gen, mods + pmods + ['canary'], rlimit=rl, timeout=600)
     if res['json'] is None:
         print('MACHINERY: verus produced no result (rc=%s)\n%s' % (res['rc'], res['stderr'][-3000:])); sys.exit(2)
     vr = res['json']['verification-results']
     if vr.get('encountered-vir-error') or (vr['errors'] == 0 and vr['verified'] == 0):
         print('MACHINERY: verus rejected the generated text (unsupported construct or contract text out of date)\n%s' % res['stderr'][-3000:]); sys.exit(2)
     errs = parse_stderr(res['stderr'])
+    def split_canary(es):
+        can = [e for e in es if e['primary'] and module_of_line(e['primary'], gen_lines).endswith('canary')]
+        return can, [e for e in es if e not in can]
+    can_errs, errs = split_canary(errs)
+    if len(can_errs) != n_canaries or n_canaries == 0:
+        print('MACHINERY: %d of %d canaries failed as they must - the trusted base may be inconsistent (not a verdict)' % (len(can_errs), n_canaries)); sys.exit(2)
     if any(is_rlimit(e) for e in errs):                       # resource-outs: retry once with a much larger limit
         res2 = run_verus(gen, mods + pmods, rlimit=rl * 8, timeout=900)
         if res2['json'] is not None:
@@ -452,7 +456,7 @@ def main():
                   property_lemmas=lemma_fns,
                   source_hashes={'%s::%s' % (f['module'], f['fn']): f['sha256'] for f in rep['functions'] if ('views::' + f['module']) in mods},
                   extraction_rules_applied=rep['rules_applied'],
-                  canaries=dict(expected_to_fail=n_canaries, failed=can['json']['verification-results']['errors']),
+                  canaries=dict(expected_to_fail=n_canaries, failed=len(can_errs)),
                   prerequisite_failures=[dict(module=f['module'], fn=f['fn'], label=f['label'], tags=f['tags']) for f in prereq],
                   undecided_resource_out=[dict(module=f['module'], fn=f['fn']) for f in undecided],
                   known_findings=[k['raw'][:300] for k in known],
